@@ -23,6 +23,9 @@
    alloc_node right after the slot write (20), the slot reads right after the tail.index load
    (30/40/50).  So one event is one or several consecutive transitions of ONE role.
 
+   The object of every atomic event is tied in the same way to the memory word of the model
+   (tail.index, head.index, tail.block, head.block, first, last_head, the `next` field of block b):
+   the consumer must load the very `next` field the producer stored for that block.
    The slot object of every slot.write is tied to (block id, offset) of the model, again as a
    bijection: when the model says that a recycled block is written, the code must write the very
    same memory again, and a fresh block must be new memory. *)
@@ -35,13 +38,15 @@ Variable B : nat.
 
 Record aux := { ren : list (Z * nat);      (* block address <-> block id *)
                 sob : list (Z * nat);      (* slot object <-> block id * B + offset *)
+                fob : list (Z * nat);      (* atomic object <-> field: 1 tail.index 2 head.index 3 tail.block 4 head.block
+                                              5 first 6 last_head, 100 + b: the `next` field of block b *)
                 pact : Z;                  (* the thread inside a producer-side call (0: nobody) *)
                 pkind : nat;               (* 1 push, 2 len *)
                 cact : Z;                  (* the thread inside a consumer call *)
                 ccall : nat;               (* 0 none, 1 pop, 2 bulk_pop, 3 len, 4 is_empty, 5 peek *)
                 nitems : nat }.            (* bulk items reported so far *)
 Definition ast := (st * aux)%type.
-Definition aux0 := {| ren := []; sob := []; pact := 0%Z; pkind := 0; cact := 0%Z; ccall := 0; nitems := 0 |}.
+Definition aux0 := {| ren := []; sob := []; fob := []; pact := 0%Z; pkind := 0; cact := 0%Z; ccall := 0; nitems := 0 |}.
 Definition a_init : ast := (init, aux0).
 
 Fixpoint lookup (l : list (Z * nat)) (a : Z) : option nat :=
@@ -72,11 +77,12 @@ Definition cpc_eqb (a b : cpc) : bool :=
 Definition op_eqb (a b : op) : bool :=
   match a, b with OPop, OPop | OBulk, OBulk | OPeek, OPeek | OLen, OLen => true | _, _ => false end.
 
-Definition set_ren x l := {| ren := l; sob := sob x; pact := pact x; pkind := pkind x; cact := cact x; ccall := ccall x; nitems := nitems x |}.
-Definition set_sob x l := {| ren := ren x; sob := l; pact := pact x; pkind := pkind x; cact := cact x; ccall := ccall x; nitems := nitems x |}.
-Definition set_pact x a k := {| ren := ren x; sob := sob x; pact := a; pkind := k; cact := cact x; ccall := ccall x; nitems := nitems x |}.
-Definition set_call x a n := {| ren := ren x; sob := sob x; pact := pact x; pkind := pkind x; cact := a; ccall := n; nitems := 0 |}.
-Definition set_items x n := {| ren := ren x; sob := sob x; pact := pact x; pkind := pkind x; cact := cact x; ccall := ccall x; nitems := n |}.
+Definition set_ren x l := {| ren := l; sob := sob x; fob := fob x; pact := pact x; pkind := pkind x; cact := cact x; ccall := ccall x; nitems := nitems x |}.
+Definition set_sob x l := {| ren := ren x; sob := l; fob := fob x; pact := pact x; pkind := pkind x; cact := cact x; ccall := ccall x; nitems := nitems x |}.
+Definition set_pact x a k := {| ren := ren x; sob := sob x; fob := fob x; pact := a; pkind := k; cact := cact x; ccall := ccall x; nitems := nitems x |}.
+Definition set_call x a n := {| ren := ren x; sob := sob x; fob := fob x; pact := pact x; pkind := pkind x; cact := a; ccall := n; nitems := 0 |}.
+Definition set_fob x l := {| ren := ren x; sob := sob x; fob := l; pact := pact x; pkind := pkind x; cact := cact x; ccall := ccall x; nitems := nitems x |}.
+Definition set_items x n := {| ren := ren x; sob := sob x; fob := fob x; pact := pact x; pkind := pkind x; cact := cact x; ccall := ccall x; nitems := n |}.
 
 (* if [pre] holds take the model transitions [acts] (all must be enabled), require [post] of the
    resulting state and let [nx] update the acceptor's own bookkeeping (None: inconsistent) *)
@@ -103,7 +109,21 @@ Definition reads_done (s : st) : bool := negb (cpc_eqb (cp (C s)) CRead) && negb
 
 Local Open Scope Z_scope.
 
-Definition accept_ev (sx : ast) (e : list Z) : option ast :=
+(* the memory word an atomic event must hit, from the state BEFORE the event *)
+Definition field_of (s : st) (code : Z) : option nat :=
+  match code with
+  | 26 | 30 | 40 | 50 | 61 => Some 1%nat
+  | 33 | 43 | 60 => Some 2%nat
+  | 25 => Some 3%nat
+  | 32 | 42 => Some 4%nat
+  | 21 | 23 => Some 5%nat
+  | 22 => Some 6%nat
+  | 24 => Some (100 + tblk (M s))%nat
+  | 31 | 41 => Some (100 + hblk (M s))%nat
+  | _ => None
+  end.
+
+Definition accept_core (sx : ast) (e : list Z) : option ast :=
   let (s, x) := sx in
   let m := M s in let p := P s in let c := C s in
   let inp a := Z.eqb (pact x) a in
@@ -172,6 +192,21 @@ Definition accept_ev (sx : ast) (e : list Z) : option ast :=
   | _ => None
   end.
 
+(* the event's object must be the word the model accesses (objects <-> fields is a bijection too) *)
+Definition accept_ev (sx : ast) (e : list Z) : option ast :=
+  match accept_core sx e with
+  | Some (s', x') =>
+      match e with
+      | [code; _; o; _] =>
+          match field_of (fst sx) code with
+          | Some fld => option_map (fun l => (s', set_fob x' l)) (bind (fob x') o fld)
+          | None => Some (s', x')
+          end
+      | _ => Some (s', x')
+      end
+  | None => None
+  end.
+
 Fixpoint accept_all (sx : ast) (tr : list (list Z)) : option ast :=
   match tr with
   | [] => Some sx
@@ -195,12 +230,23 @@ Proof.
   inversion H; subst. cbn. eapply run_reach; eauto.
 Qed.
 
-Lemma accept_ev_reach sx e sx' : Reach B (fst sx) -> accept_ev sx e = Some sx' -> Reach B (fst sx').
+Lemma accept_core_reach sx e sx' : Reach B (fst sx) -> accept_core sx e = Some sx' -> Reach B (fst sx').
 Proof.
-  destruct sx as [s x]. cbn [fst]. intros R H. unfold accept_ev, ptr_ev in H.
+  destruct sx as [s x]. cbn [fst]. intros R H. unfold accept_core, ptr_ev in H.
   repeat match type of H with
          | match ?z with _ => _ end = Some _ => destruct z; try discriminate
          end; eauto using fin_reach.
+Qed.
+Lemma accept_ev_reach sx e sx' : Reach B (fst sx) -> accept_ev sx e = Some sx' -> Reach B (fst sx').
+Proof.
+  intros R H. unfold accept_ev in H. destruct (accept_core sx e) as [[s1 x1]|] eqn:E; [|discriminate].
+  pose proof (accept_core_reach _ _ _ R E) as R1. cbn [fst] in R1.
+  assert (G : fst sx' = s1).
+  { repeat match type of H with
+           | match ?z with _ => _ end = Some _ => destruct z; try discriminate
+           | option_map _ ?z = Some _ => destruct z; cbn [option_map] in H; try discriminate
+           end; inversion H; reflexivity. }
+  now rewrite G.
 Qed.
 
 (* every state along an accepted trace of the implementation is a reachable state of the model *)
